@@ -46,7 +46,7 @@ SHARDS = {"quick": 4, "thorough": 16}
 TIMEOUT = {"quick": 240, "thorough": 1500}
 MIN_EVALS = 100
 REQUIRED_COUNTERS = ("runs_map_async", "runs_regen_repository", "runs_threaded_trigger", "injected_yields",
-                     "runs_multi_thread_interleaved")
+                     "runs_multi_thread_interleaved", "falsy_but_nonempty_results_produced")
 
 _TOOL = 4
 _EMPTY = (None, "", [], ())
@@ -217,10 +217,29 @@ def make_functor(style, log, yield_mod):
         return
         yield  # pragma: no cover
 
-    return {"gen": f_gen, "list": f_list, "tuple": f_tuple, "str": f_str, "none": f_none, "genempty": f_genempty}[style]
+    def f_count(it, *args, **kwds):
+        # a worker that reports how many items it handled: 0 for a thread that got none (a result, not "no result")
+        t, rng = log.enter(args, kwds)
+        n = 0
+        for x in log.consume(it, t, rng):
+            n += 1
+        r = n if n < 2 else ["count", t, n]
+        log.produced.append(r)
+        return r
+
+    def f_flag(it, *args, **kwds):
+        # a worker that reports a success flag: False is as much a result as True
+        t, rng = log.enter(args, kwds)
+        seen = [x for x in log.consume(it, t, rng)]
+        r = bool(len(seen) % 2)
+        log.produced.append(r)
+        return r
+
+    return {"gen": f_gen, "list": f_list, "tuple": f_tuple, "str": f_str, "none": f_none, "genempty": f_genempty,
+            "count": f_count, "flag": f_flag}[style]
 
 
-STYLES = ["gen", "gen", "gen", "list", "tuple", "str", "none", "genempty"]
+STYLES = ["gen", "gen", "gen", "list", "tuple", "str", "none", "genempty", "count", "flag"]
 KINDS = ["list", "list", "tuple", "range", "deque", "gen", "gen", "slowgen"]
 
 
@@ -579,6 +598,8 @@ class Runner:
                 extra=sorted(extra.elements())[:10], n_extra=sum(extra.values()), n_results=len(res),
                 n_produced=len(produced))))
         if record:
+            if any(v is False or (type(v) is int and v == 0) for v in produced):
+                ctx.count("falsy_but_nonempty_results_produced")
             if obs["alive_after"]:
                 ctx.count("worker_threads_alive_after_return", obs["alive_after"])
             # pass-through (counted only)
